@@ -418,10 +418,16 @@ func mercReport(v int, cfg, cc map[string]any, prev ocrtypes.Report, aosJ []any)
 	if err != nil {
 		return resErr("config", err)
 	}
+	return mercReportOn(p, rc, v, prev, aosJ)
+}
+
+// mercReportOn: one Report call on an existing plugin instance
+func mercReportOn(p ocr3types.MercuryPlugin, rc *mercRefCodec, v int, prev ocrtypes.Report, aosJ []any) J {
 	aos := make([]ocrtypes.AttributedObservation, len(aosJ))
 	for i, ao := range aosJ {
 		aos[i] = ocrtypes.AttributedObservation{Observation: mercObservation(v, ao), Observer: commontypes.OracleID(i)}
 	}
+	rc.calls = 0
 	should, report, err := p.Report(context.Background(), ocrtypes.ReportTimestamp{}, prev, aos)
 	if err != nil {
 		r := resErr(mercErrClass(err), err)
@@ -550,10 +556,23 @@ func init() {
 	RegOp("mercury.history", func(in J) any {
 		in = normalise(in).(map[string]any)
 		v := jInt(in["v"])
+		// as in production, ONE plugin instance serves all rounds; every round is also evaluated on a fresh
+		// instance with the same inputs, and the two must agree (no state may survive a Report call)
+		shared, src, serr := mercPlugin(v, jObj(in["cfg"]), jObj(in["codec"]))
 		prev := mercPrev(in["prev"])
 		var out []any
-		for _, r := range jArr(in["rounds"]) {
-			res := mercRound(v, jObj(in["cfg"]), jObj(in["codec"]), prev, jArr(r))
+		var leaks []any
+		for i, r := range jArr(in["rounds"]) {
+			var res any
+			if serr != nil {
+				res = resErr("config", serr)
+			} else {
+				res = mercRoundOn(shared, src, v, prev, jArr(r))
+			}
+			fresh := mercRound(v, jObj(in["cfg"]), jObj(in["codec"]), prev, jArr(r))
+			if string(marshal(stripPrivate(normalise(res)))) != string(marshal(stripPrivate(normalise(fresh)))) {
+				leaks = append(leaks, J{"round": i, "fresh_instance": stripPrivate(normalise(fresh))})
+			}
 			out = append(out, res)
 			if ok := jObj(jObj(normalise(res))["ok"]); ok != nil && jBool(ok["should"]) {
 				prev = jBytes(ok["report"])
@@ -562,8 +581,21 @@ func init() {
 		if out == nil {
 			out = []any{}
 		}
-		return resOK(out)
+		r := resOK(out)
+		if leaks != nil {
+			r["_instance_state"] = leaks
+		}
+		return r
 	})
+}
+
+func mercRoundOn(p ocr3types.MercuryPlugin, rc *mercRefCodec, v int, prev ocrtypes.Report, aos []any) (res any) {
+	defer func() {
+		if r := recover(); r != nil {
+			res = J{"panic": true, "panic_msg": fmt.Sprint(r)}
+		}
+	}()
+	return mercReportOn(p, rc, v, prev, aos)
 }
 
 // mercRound runs one round with its own recover so that a panic in one round is reported in place
